@@ -179,8 +179,8 @@ def run(ctx):
                 'probed expression was evaluated at run time in a sanitizer-clean execution; distinct by program text')
     ctx.cov['generator_exclusions'] = progen.EXCLUSIONS
     ctx.assumptions += ['gcc x86-64 execution == --platform=unix64', 'ASan+UBSan-clean execution == UB-free execution']
-    n = ctx.n(240, 12000)
-    nvec = 16 if ctx.quick() else 48
+    n = ctx.n(160, 12000)
+    nvec = 12 if ctx.quick() else 48
     jobs = []
     for i in range(n):
         lang = 'c' if i % 4 != 3 else 'cpp'
